@@ -163,9 +163,20 @@ def run_native(ctx, binary, label, pid, episodes, max_ops, nshards=12, extra=())
                 if pid not in ("C07", "C02"):
                     ctx.inconclusive.append("driver run %s aborted (misaligned pointer dereference: a C07 event)" % lab)
             else:
-                if pid in ("C04", "C05", "C06", "C07"):
-                    ctx.violation("driver-crashed", "[%s] the driver died with status %s; last hook events: %s; stderr tail: %s" % (lab, rc, hook, text[-300:]),
-                                  "%s driver-crashed %s %s" % (pid, label, " ".join(h.split(" addr=")[0] for h in hook[-1:])[:160]), {"stderr": text, "cmd": " ".join(jobs[0][1])})
+                # which operations did the episode that crashed contain? (re-run with --trace)
+                cmd = [j for j in jobs if j[0] == lab][0][1]
+                rc2, out2, err2 = common.sh(cmd + ["--trace"], timeout=1800)
+                trace = [l for l in (err2 or "").splitlines() if l.startswith("TRACE ")]
+                last_ep = trace[-1].split(":")[0] if trace else ""
+                ops = [l.split(": ", 1)[1] for l in trace if l.startswith(last_ep + ":") and "ReadAll" not in l][-30:] if trace else []
+                props = {"C04", "C05", "C06", "C07"}
+                if any(o.startswith("Clone") for o in ops):
+                    props.add("C16")
+                if any(o.startswith(("Ser", "De", "Expected")) for o in ops):
+                    props.add("C15")
+                if pid in props:
+                    ctx.violation("driver-crashed", "[%s] the driver died with status %s in %s; operations of that episode: %s; last hook events: %s; stderr tail: %s" % (lab, rc, last_ep[6:], ops[-8:], hook, text[-300:]),
+                                  "%s driver-crashed %s %s" % (pid, label, " ".join(h.split(" addr=")[0] for h in hook[-1:])[:160]), {"stderr": text, "cmd": " ".join(cmd), "ops": ops})
                 else:
                     ctx.inconclusive.append("driver run %s died with status %s" % (lab, rc))
         else:
